@@ -570,7 +570,7 @@ func pReinject(a []string) string {
 	dst := UnH(a[1])
 	off := UnN(a[2])
 	es, err := fit.GetEntries(src)
-	if err != nil || len(es) == 0 || len(dst) != len(src) {
+	if err != nil || len(es) == 0 || len(dst) != len(src) || kindOf(es[0]) != 0 {
 		return "skip"
 	}
 	size := uint64(len(dst))
@@ -580,8 +580,8 @@ func pReinject(a []string) string {
 		if len(b.HeadersErrors) != 0 && kindOf(e) != 3 && kindOf(e) != 8 {
 			return "skip"
 		}
-		if kindOf(e) == 2 && len(b.DataSegmentBytes) == 0 {
-			return "skip"
+		if d := b.DataSegmentBytes; kindOf(e) == 2 && (len(d) < 28 || uint32(len(d)) != binary.LittleEndian.Uint32(d[24:28])<<2) {
+			return "skip" // the ACM's size field must lie inside its own data (data_rule)
 		}
 		if len(b.DataSegmentBytes) == 0 {
 			continue
